@@ -29,7 +29,11 @@ namespace trompeloeil {
     sequence_type(const sequence_type&) = delete;
     sequence_type& operator=(sequence_type&&) = delete;
     sequence_type& operator=(const sequence_type&) = delete;
-    ~sequence_type();
+    ~sequence_type() = default;
+
+    void
+    sequence_destroyed()
+    noexcept;
 
     bool
     is_completed()
@@ -74,10 +78,22 @@ namespace trompeloeil {
   class sequence
   {
   public:
+    sequence() = default;
+    sequence(sequence&&) noexcept = default;
+    sequence& operator=(sequence&& r) noexcept
+    {
+      if (obj && obj != r.obj) obj->sequence_destroyed();
+      obj = std::move(r.obj);
+      return *this;
+    }
+    ~sequence() { if (obj) obj->sequence_destroyed(); }
     sequence_type& operator*() { return *obj; }
     bool is_completed() const { auto lock = get_lock(); return obj->is_completed(); }
   private:
-    std::unique_ptr<sequence_type> obj{detail::make_unique<sequence_type>()};
+    friend class sequence_matcher;
+    // shared with the expectations registered in the sequence, so that
+    // they never refer to a dead object if they outlive the sequence
+    std::shared_ptr<sequence_type> obj{std::make_shared<sequence_type>()};
   };
 
   class sequence_matcher : public list_elem<sequence_matcher>
@@ -95,10 +111,10 @@ namespace trompeloeil {
       , exp_name(exp)
       , exp_loc(loc)
       , sequence_handler(handler)
-      , seq(*i.second)
+      , seq(i.second.obj)
     {
       auto lock = get_lock();
-      seq.add_last(this);
+      seq->add_last(this);
     }
 
     sequence_matcher(const sequence_matcher&) = delete;
@@ -112,7 +128,7 @@ namespace trompeloeil {
       location loc)
     const
     {
-      seq.validate_match(s, this, seq_name, match_name, loc);
+      seq->validate_match(s, this, seq_name, match_name, loc);
     }
 
     unsigned
@@ -120,7 +136,7 @@ namespace trompeloeil {
     const
     noexcept
     {
-      return seq.cost(this);
+      return seq->cost(this);
     }
 
     bool
@@ -144,7 +160,7 @@ namespace trompeloeil {
     retire_predecessors()
     noexcept
     {
-      seq.retire_until(this);
+      seq->retire_until(this);
     }
 
     void
@@ -166,7 +182,7 @@ namespace trompeloeil {
     char const *exp_name;
     location    exp_loc;
     const sequence_handler_base& sequence_handler;
-    sequence_type& seq;
+    std::shared_ptr<sequence_type> seq;
   };
 
   inline
@@ -285,7 +301,9 @@ namespace trompeloeil {
   }
 
   inline
-  sequence_type::~sequence_type()
+  void
+  sequence_type::sequence_destroyed()
+  noexcept
   {
     bool touched = false;
     std::ostringstream os;
